@@ -130,10 +130,19 @@ Fixpoint htrace (sched : list nat) (c : cfg) : list (bool * nat) * cfg :=
 Definition trace_eqb (a b : bool * nat) : bool :=
   Bool.eqb (fst a) (fst b) && (negb (fst a) || Nat.eqb (snd a) (snd b)).
 
+(* an actor runs its whole program inside one callback, so what is pushed to it meanwhile is handled
+   after the program - or never, if the program ends with its termination: for such actors only the
+   return values are compared *)
+Definition terminates (p : list op) : bool := existsb (fun o => match o with OTerminate => true | _ => false end) p.
+Definition obs_eqb_prog (pa : list op * (obs * obs)) : bool :=
+  let '(p, (a, b)) := pa in
+  if terminates p then list_eqb res_eqb (o_res a) (o_res b) else obs_eqb a b.
+
 Definition corr_hooked (c : hcase) : bool :=
   let '(t, cf) := htrace (h_sched c) (init_cfg (h_progs c)) in
   list_eqb trace_eqb t (h_trace c) &&
-  list_eqb obs_eqb (map (obs_lts cf) (seq 0 (length (h_progs c)))) (h_obs c).
+  Nat.eqb (length (h_obs c)) (length (h_progs c)) &&
+  forallb obs_eqb_prog (combine (h_progs c) (combine (map (obs_lts cf) (seq 0 (length (h_progs c)))) (h_obs c))).
 
 Definition count_subs (p : list op) : nat :=
   length (filter (fun o => match o with OSub _ => true | _ => false end) p).
@@ -150,6 +159,16 @@ Definition spec_hooked (c : hcase) : bool :=
              nodup_b (o_ev o) && in_order n (o_ev o) &&
              (Nat.ltb 1 (count_subs p) || disjoint_b (returned o) (o_ev o)))
           (combine (h_progs c) (h_obs c)).
+
+(* a producer is never told "stop" more often than "start" (every prefix of its notifications) *)
+Fixpoint stops_le_starts (bal : nat) (l : list item) : bool :=
+  match l with
+  | [] => true
+  | IStart :: tl => stops_le_starts (S bal) tl
+  | IStop :: tl => match bal with O => false | S b => stops_le_starts b tl end
+  | _ :: tl => stops_le_starts bal tl
+  end.
+Definition spec_hooked_notify (c : hcase) : bool := forallb (fun o => stops_le_starts 0 (o_sys o)) (h_obs c).
 
 Definition premise_hooked (c : hcase) : bool :=
   existsb (fun o => negb (Nat.eqb (length (o_ev o)) 0)) (h_obs c).
